@@ -38,7 +38,7 @@ Classes == <<JNull, JTrue, JInt(1), JStr(<<97>>), JArr(<<>>), JArr(<<JInt(1), JI
 ClassSet == {Classes[i] : i \in DOMAIN Classes}
 Unknown == <<110, 111, 115, 117, 99, 104>>          \* "nosuch"
 Arities(f) == 0..(IF Len(Sig(f).ps) + 2 > MAXAR THEN MAXAR ELSE Len(Sig(f).ps) + 2)
-SigCases(z) ==
+SigCases(zzdummy) ==
   LET cells == {<<f, args>> : f \in {FnNames[i] : i \in DOMAIN FnNames}, args \in UNION {[1..n -> ClassSet] : n \in 0..MAXAR}}
       ok == SetToSeq({c \in cells : Len(c[2]) \in Arities(c[1])})
       unk == SetToSeq(UNION {[1..n -> ClassSet] : n \in 0..2})
@@ -88,7 +88,7 @@ ToNumStrs == {JStr(<<49>>), JStr(<<49, 46, 53>>), JStr(<<45, 50>>), JStr(<<32, 4
               JStr(<<48, 49>>), JStr(<<49, 46>>), JStr(<<46, 53>>), JStr(<<123, 125>>), JStr(<<45>>), JStr(<<48>>), JStr(<<45, 48>>)}
 AnyVals == Mixed \cup {JNum(3, 2), JInt(-1), JArr(<<JInt(1), JStr(<<97>>), JNull>>)}
 
-ValCells(z) ==
+ValCells(zzdummy) ==
   {<<f, <<x>>>> : f \in {"abs", "ceil", "floor"}, x \in MoreNums}
   \cup {<<f, <<x>>>> : f \in {"avg", "sum", "max", "min", "sort", "reverse", "length", "to_array", "to_string"}, x \in NumArrs}
   \cup {<<f, <<x>>>> : f \in {"max", "min", "sort", "reverse", "length"}, x \in StrArrs}
@@ -105,8 +105,8 @@ ValCells(z) ==
   \cup {<<f, <<x, ExprefK>>>> : f \in {"sort_by", "max_by", "min_by"}, x \in RecArrs \cup Families}
   \cup {<<"map", <<ExprefK, x>>>> : x \in RecArrs \cup {JArr(<<JInt(1), JNull, ObjA>>)}}
 
-ValCases(z) == LET cs == SetToSeq(ValCells(0)) IN [i \in DOMAIN cs |-> VCase(cs[i][1], cs[i][2])]
+ValCases(zzdummy) == LET cs == SetToSeq(ValCells(0)) IN [i \in DOMAIN cs |-> VCase(cs[i][1], cs[i][2])]
 
-Cases(z) == IF IOEnv.MODE = "sig" THEN SigCases(0) ELSE ValCases(0)
+Cases(zzdummy) == IF IOEnv.MODE = "sig" THEN SigCases(0) ELSE ValCases(0)
 ASSUME ndJsonSerialize(IOEnv.OUT, Cases(0))
 =============================================================================
